@@ -1,9 +1,75 @@
 import ALV.Common.Json
+import ALV.Model.C09
+import ALV.Spec.C09
 namespace ALV.Driver.C09
-open ALV ALV.J
+open ALV ALV.J ALV.C09
 
-/-- stub: the C09 slice is not built yet -/
-def handle (entry : String) (_j : Json) : Except String Json :=
-  throw s!"C09: unknown entry {entry}"
+/-- `null` | {"kind":"seq","w":[…]} | {"kind":"callable","table":[[n,[…]],…],"default":[…]|null}
+    | {"kind":"scalar"} -/
+def getWnd (j : Option Json) : Except String (WndArg Rat) := do
+  match j with
+  | none => pure .none
+  | some j =>
+    let kind ← getStr (← field j "kind")
+    match kind with
+    | "seq" => pure (.seq (← getList getRat (← field j "w")))
+    | "scalar" => pure .scalar
+    | "callable" =>
+      let rows ← getArr (← field j "table")
+      let table ← rows.mapM fun r => do
+        match r with
+        | Json.arr [n, l] => pure ((← getNat n), (← getList getRat l))
+        | _ => throw "bad table row"
+      let dflt ← match optField j "default" with
+        | none => pure none
+        | some d => pure (some (← getList getRat d))
+      pure (.callable fun n =>
+        match table.find? (·.1 = n) with
+        | some (_, l) => some l
+        | none => dflt)
+    | k => throw s!"unknown window kind {k}"
+
+def optNat (j : Json) (k : String) : Except String (Option Nat) :=
+  match optField j k with
+  | none => pure none
+  | some v => do pure (some (← getNat v))
+
+def errJson : Option Err → Json
+  | none => Json.null
+  | some e => Json.mkObj [("kind", Json.str e.kind), ("tag", Json.str e.tag)]
+
+def outJson (o : Out Rat) : Json :=
+  Json.mkObj [("out", rats o.out), ("err", errJson o.err)]
+
+/-- the statement of the property, evaluated only where it speaks: every block has `size` items,
+    `1 ≤ hop ≤ size`, the window (if any) has `size` items -/
+def specOf (blks : List (List Rat)) (size? hop? : Option Nat) (wnd : WndArg Rat) (normalize : Bool) :
+    Json :=
+  match detectSize size? blks with
+  | none => if blks.isEmpty then Json.mkObj [("out", rats []), ("gain", Json.null)] else Json.null
+  | some size =>
+    let hop := hop?.getD size
+    match resolveWnd size wnd with
+    | .error _ => Json.null
+    | .ok w0 =>
+      let w := truthy w0
+      let wOk : Bool := match w with | none => true | some l => l.length == size
+      if size = 0 ∨ hop = 0 ∨ hop > size ∨ wOk = false ∨ blks.any (fun b => b.length ≠ size) then Json.null
+      else
+        let g := gainSpec size hop normalize w
+        Json.mkObj [("out", rats (olaSpec g (wndSpec size w) size hop blks)),
+                    ("gain", ratToJson g)]
+
+def handle (entry : String) (j : Json) : Except String Json := do
+  match entry with
+  | "ola" =>
+    let blks ← getList (getList getRat) (← field j "blks")
+    let size? ← optNat j "size"
+    let hop? ← optNat j "hop"
+    let wnd ← getWnd (optField j "wnd")
+    let normalize ← getBool (fieldD j "normalize" (Json.bool true))
+    let m := overlapAddList blks size? hop? wnd normalize
+    pure <| Json.mkObj [("model", outJson m), ("spec", specOf blks size? hop? wnd normalize)]
+  | _ => throw s!"C09: unknown entry {entry}"
 
 end ALV.Driver.C09
